@@ -292,6 +292,10 @@ func (w *worker) runCase(line int, raw []byte) {
 		w.runHash(line, raw, &c)
 		return
 	}
+	if kind == "f64" {
+		w.runF64(line, raw)
+		return
+	}
 	// the model marks node-set cases "sel-set"; a check that requires more (each node once, document
 	// order) says so on the command line
 	if kind == "sel-set" && (w.kind == "sel-once" || w.kind == "sel-seq") {
